@@ -39,6 +39,15 @@ type Config struct {
 	TickSizes  []time.Duration // tick durations to choose from
 	KeepTape   bool            // keep the full event log in memory (replay files, debugging)
 	DialRefuseProb float64     // probability that a pending dial is refused instead of accepted (fault configs)
+	// S2CFrameWise makes every s2c delivery end at the latest at the end of the first undelivered frame (reply or
+	// push), so that a client never receives two frames in one step. Scenarios whose client code reacts to pushes on
+	// several goroutines (invalidation-driven wake-ups) need it for determinism. Off by default.
+	S2CFrameWise bool
+	// GroupResume releases all goroutines parked under one identical identity with a single resume event. Goroutines
+	// with equal identities are interchangeable by definition, but which of them arrived first is decided by the Go
+	// runtime: releasing "the i-th" would leak that order into the execution (several per-key goroutines of one lock
+	// holder retrying through a dead connection). Off by default.
+	GroupResume bool
 }
 
 // Link ties the client end and the server end of one connection.
@@ -56,6 +65,8 @@ type Link struct {
 	S2CCuts   int // deliveries that ended inside a frame
 	Delivered int
 	lastPending int
+	frameIdx    int // S2CFrameWise: first frame of S.OutLog that is not completely delivered
+	frameEnd    int // S2CFrameWise: cumulative size of the frames before frameIdx plus that frame
 	AcceptedAt         time.Time
 	DeliveryLog        []Delivery // cumulative bytes delivered to the client after each s2c event
 	ClientClosedAt     time.Time // when the server side noticed that the client had closed the connection
@@ -496,6 +507,32 @@ func (s *Sim) enabled() []Event {
 		}
 		return parked[i].seq < parked[j].seq
 	})
+	if s.Cfg.GroupResume {
+		for i := 0; i < len(parked); {
+			j := i
+			for j < len(parked) && parked[j].ID == parked[i].ID {
+				j++
+			}
+			group := parked[i:j]
+			evs = append(evs, Event{Kind: "resume", Key: group[0].ID, Weight: w.Resume, Do: func() {
+				s.mu.Lock()
+				for _, p := range group {
+					for k, q := range s.parked {
+						if q == p {
+							s.parked = append(s.parked[:k], s.parked[k+1:]...)
+							break
+						}
+					}
+				}
+				s.mu.Unlock()
+				for _, p := range group {
+					close(p.ch)
+				}
+			}})
+			i = j
+		}
+		parked = nil
+	}
 	for i, p := range parked {
 		p := p
 		key := p.ID
@@ -670,6 +707,15 @@ func (s *Sim) doS2C(l *Link) {
 		}
 		l.S2CCuts++
 		s.Stats["s2c.partial"]++
+	}
+	if s.Cfg.S2CFrameWise {
+		for l.frameEnd <= l.Delivered && l.frameIdx < len(l.S.OutLog) {
+			l.frameEnd += l.S.OutLog[l.frameIdx].Bytes
+			l.frameIdx++
+		}
+		if rest := l.frameEnd - l.Delivered; rest > 0 && m > rest {
+			m = rest
+		}
 	}
 	if l.CutAfter >= 0 && m >= l.CutAfter {
 		m = l.CutAfter
